@@ -117,8 +117,8 @@ def has_fstring_escape_literal(src):
     return False
 
 
-def check_program(part, pool_, source, tags, switches, label):
-    hosts, runtimes = pool_.hosts(), pool_.runtimes()
+def check_program(part, pool_, source, tags, switches, label, skip_runtimes=()):
+    hosts, runtimes = pool_.hosts(), [r for r in pool_.runtimes() if r not in skip_runtimes]
     r0 = pool_.get(runtimes[0]).call({"op": "compile", "text": source, "mode": "exec"})
     if not r0.get("ok"):
         part["discarded"]["source-not-valid-on-%s" % runtimes[0]] += 1
@@ -214,8 +214,73 @@ def check_program(part, pool_, source, tags, switches, label):
     return None
 
 
+# ------------------------------------------------------------------ depth family
+
+DEPTH_KINDS = ("def", "class", "if", "mixed")
+DEPTHS_QUICK = (8, 16, 28)
+DEPTHS_THOROUGH = (4, 8, 12, 16, 20, 24, 28, 34, 40)
+# F36: the text for 24 or more nested def statements (32 classes; about 46 with unparser=oneliner)
+# overflows the parser stack of Python 3.8 (MemoryError), although 3.8 compiles the source: above
+# this depth runtime 3.8 is left out for def/class nesting while the finding is open
+DEPTH_38_LIMIT = 16
+
+
+def depth_program(kind, n):
+    """n statically nested blocks (valid on 3.8: at most 20 of them are loops)"""
+    lines = ["t = [0]", "w = [0]"]
+    kinds = []
+    for i in range(n):
+        k = kind if kind != "mixed" else ("def", "if", "class", "for", "def", "while")[i % 6]
+        if k in ("for", "while") and sum(1 for x in kinds if x in ("for", "while", "if")) >= 18:
+            k = "def"
+        kinds.append(k)
+        ind = "    " * i
+        if k == "def":
+            lines.append("%sdef f%d():" % (ind, i))
+        elif k == "class":
+            lines.append("%sclass K%d:" % (ind, i))
+        elif k == "if":
+            lines.append("%sif t[0] == 0:" % ind)
+        elif k == "for":
+            lines.append("%sfor e%d in range(2):" % (ind, i))
+        else:
+            lines.append("%swhile w[0] < %d:" % (ind, i + 1))
+    lines.append("    " * n + "t.append(%d)" % n)
+    # leave the blocks again: call each function where it was defined
+    for i in range(n - 1, -1, -1):
+        ind = "    " * i
+        if kinds[i] == "def":
+            lines.append("%sf%d()" % (ind, i))
+        elif kinds[i] == "while":
+            lines.append("%sw[0] += 1" % ("    " * (i + 1)))
+    lines.append("print(t)")
+    return "\n".join(lines) + "\n"
+
+
+def _depth_shard(item):
+    cases, switches = item
+    part = new_part()
+    pl = interp.Pool()
+    try:
+        for kind, n in cases:
+            src = depth_program(kind, n)
+            skip = ()
+            if "deep-nesting-on-3.8-parser" in switches and kind in ("def", "class", "mixed") and n > DEPTH_38_LIMIT:
+                skip = ("3.8",)
+                part["exclusions"]["deep-nesting-on-3.8-parser"] = part["exclusions"].get("deep-nesting-on-3.8-parser", 0) + 1
+            part["classes"]["depth:%s" % kind] += 1
+            v = check_program(part, pl, src, SENSITIVE, switches, "%d nested %s blocks" % (n, kind), skip_runtimes=skip)
+            if v and len(part["violations"]) < 3:
+                part["violations"].append(v)
+    finally:
+        pl.close()
+    return part
+
+
 def _shard(item):
     kind, arg, switches = item
+    if kind == "depth":
+        return _depth_shard((arg, switches))
     part = new_part()
     pl = interp.Pool()
     try:
@@ -261,6 +326,8 @@ def run(report):
     progs = sorted(pool.all_programs().items()) + sorted(pool.VERSION_SENSITIVE.items())
     nsh = min(env.NPROC, 12)
     items = [("corpus", progs[i::4], switches) for i in range(4)]
+    depth_cases = [(k, n) for k in DEPTH_KINDS for n in (DEPTHS_QUICK if quick else DEPTHS_THOROUGH)]
+    items += [("depth", depth_cases[i::4], switches) for i in range(4)]
     per = 20 if quick else 300
     items += [("gen", (env.sub_seed(report.seed, "C15", i), per), switches) for i in range(nsh)]
     for part in env.pmap(_shard, items, nproc=nsh):
